@@ -6,7 +6,8 @@ use vlib::rng::Rng;
 
 #[derive(Clone, Debug, Default)]
 pub struct GenOpts {
-    /// never send/loan a response through an active request whose client port is gone
+    /// never send/loan a response through an active request whose client port is gone, and never
+    /// create a client while such an active request exists (known defect: connection slot reuse)
     pub avoid_dead_client_send: bool,
     /// use only the copy API / only the loan API / both (0 both, 1 copy, 2 loan)
     pub api: u64,
@@ -24,7 +25,8 @@ pub fn next_step<S: Service>(w: &World<S>, rng: &mut Rng, o: &GenOpts) -> Step {
 
     let fc = w.free_client_slots();
     let fs = w.free_server_slots();
-    if !fc.is_empty() {
+    let dead_ar = w.areq_keys().iter().any(|(_, c, _)| !clients.contains(c));
+    if !fc.is_empty() && !(o.avoid_dead_client_send && dead_ar) {
         add(if clients.is_empty() { 60 } else { o.churn.max(1) }, Step::new("CreateClient", fc[0], 0, 0, 0, 0));
     }
     if !fs.is_empty() {
